@@ -55,7 +55,11 @@ int main(void)
   VF_ASSERT(ok, "C30: queue initialises");
   uint32_t npush = 0, npop = 0;
   for (int i = 0; i < K; i++) {
-    uint8_t op = nondet_u8(); VF_ASSUME(op <= 1); cx_op[i] = op;
+    uint8_t op = nondet_u8(); VF_ASSUME(op <= 1);
+#ifdef VF_COVER
+    op = (i >= (K + 1) / 2);            /* reachability twin: one concrete sequence (path-wise exploration has no cover mode) */
+#endif
+    cx_op[i] = op;
     if (op == 0) {
       uint8_t r = do_push((uint8_t*)&cell[npush]); cx_res[i] = r;
 #if LAYER == 2
